@@ -453,6 +453,10 @@ class BaseAdaptiveSupport(ABC):
 
         for attr, val in self._initial_proposal_params.items():
             setattr(self, attr, copy.deepcopy(val))
+        # proposals that cache a distribution built from these parameters
+        # need to rebuild it, otherwise they keep reporting the adapted one
+        if hasattr(self, '_update_proposal'):
+            self._update_proposal()
 
     @abstractmethod
     def _update(self, chain):
